@@ -101,14 +101,36 @@ func ruleBoundaryMono() *Rule {
 			}
 			fr := NewRootFrame(fn)
 			var out []Obligation
-			for _, b := range fn.Blocks {
-				for _, in := range b.Instrs {
-					st, f := storeField(in)
-					if st == nil || f != fld {
-						continue
-					}
-					ob := Obligation{Rule: id, Construct: "store Raft.lastIncludedIndex in (*Raft).takeSnapshot", Pos: p.InstrPos(in)}
-					v := strings.TrimPrefix(p.Canon(fr, st.Val).S, "@")
+			// the stores, in takeSnapshot itself or in a helper it calls: judged at the instruction of takeSnapshot they happen at
+			type site struct {
+				at  ssa.Instruction // in takeSnapshot
+				val string
+				pos string
+				key string
+			}
+			var sites []site
+			seenSite := map[string]bool{}
+			p.discover(fn, func(a *Analysis, f *Frame, in ssa.Instruction) {
+				st, fl := storeField(in)
+				if st == nil || fl != fld {
+					return
+				}
+				at := in
+				for q := f; q.Parent != nil; q = q.Parent {
+					at = q.Site
+				}
+				k := chainKey(f) + "|" + p.InstrPos(in)
+				if seenSite[k] {
+					return
+				}
+				seenSite[k] = true
+				sites = append(sites, site{at: at, val: strings.TrimPrefix(p.Canon(f, st.Val).S, "@"), pos: p.InstrPos(in), key: chainKey(f)})
+			})
+			for _, sx := range sites {
+				b := sx.at.Block()
+				{
+					ob := Obligation{Rule: id, Construct: "store Raft.lastIncludedIndex in " + sx.key, Pos: sx.pos}
+					v := sx.val
 					guarded := false
 					for _, bb := range fn.Blocks {
 						iff, ok := bb.Instrs[len(bb.Instrs)-1].(*ssa.If)
